@@ -766,7 +766,7 @@ pub fn run(opts: &Opts) -> i32 {
         extra.insert("seeds".into(), json!(format!("derive({}, 0..{})", seed, jobs_done)));
         extra.insert("sweep_cap".into(), json!(cap));
         extra.insert("real_vs_stub".into(), json!({
-            "real": ["fancy_regex public search API", "fancy_regex::vm::run", "regex-automata delegates", "RegexBuilder::backtrack_limit path (sampled)"],
+            "real": ["fancy_regex public search API", "fancy_regex::vm::run", "regex-automata delegates", "RegexBuilder path (sampled): one builder re-used for several limits; the other options set before / after the limit"],
             "stubbed": ["limits overridden per run through the H2 hook (the shipped comparison lines execute)"],
         }));
         Evidence {
